@@ -245,7 +245,7 @@ fn judge(t: &Table, line: &str, layer: &str, rank: u64) -> (Vec<Failure>, bool, 
     (out, took_part || t.cols.iter().zip(&firsts).any(|(c, v)| c.modifier == "NOT NULL" && v.is_null()), okey)
 }
 
-const P1: &str = "([a-z]+)=([-+0-9a-zA-Z. ٣]*)(?: (x))?";
+const P1: &str = "([a-z]+)=([-+0-9a-zA-Z.: ٣]*)(?: (x))?";
 const P2: &str = "(\\d+)-(\\w+)";
 const P3: &str = "^(\\S*) (\\S*) (\\S*) (\\S*) (\\S*) (\\S*) (\\S*)$";
 
@@ -255,7 +255,7 @@ fn cap(name: &str, regex: &str) -> Pattern {
 
 const INT_TOKS: [&str; 13] = ["", "0", "-1", "007", "+5", "9223372036854775807", "9223372036854775808", "-9223372036854775808", "4294967297", "1e3", "abc", " 5 ", "٣"];
 const REAL_TOKS: [&str; 8] = ["1.5", "-0.0", ".5", "5.", "NaN", "inf", "1e400", "x"];
-const MISC_TOKS: [&str; 6] = ["true", "false", "TRUE", "  pad  ", "1:02:03", "-1:0:0"];
+const MISC_TOKS: [&str; 14] = ["true", "false", "TRUE", "  pad  ", "1:02:03", "-1:0:0", "12:30:45:500", "1:2", "1:2:3:", ":1:2:3", "1::3", "1:2:x", "00:00:00", "1:60:61"];
 
 fn p1_lines() -> Vec<String> {
     let mut v = Vec::new();
